@@ -45,11 +45,31 @@ def run_and_judge(prop, world, root, stats, oracle_fns):
     return vs, hist, pred
 
 
-def make_runsim(prop, oracle_fns, profile, extra_probe=None):
+def child_cross_check(prop, world, hist, root, stats):
+    """Run the same world as a real child process and compare (sampled)."""
+    from . import childproc as CP
+    child = CP.run_child(world, root)
+    out = []
+    for (p, rule, key, detail) in CP.compare(world, hist, child):
+        if p == "HARNESS":
+            raise RuntimeError("child-process cross-check: %s %s" % (key, detail))
+        if p == prop:
+            out.append(O.V(p, rule, key, **detail))
+    if stats is not None:
+        stats.probe("child-process-cross-checks")
+    return out
+
+
+def make_runsim(prop, oracle_fns, profile, extra_probe=None, child_every=0):
     def eval_world(world, root, stats):
         vs, hist, pred = run_and_judge(prop, world, root, stats, oracle_fns)
         if extra_probe and stats is not None:
             extra_probe(world, hist, pred, stats)
+        if child_every and (world["seed"] % child_every == 0 or world.get("child_check")):
+            cv = child_cross_check(prop, world, hist, root, stats)
+            if cv:
+                world = dict(world, child_check=True)
+                vs = list(vs) + cv
         return [(world, v, None) for v in vs if v["prop"] == prop], R.history_digest(hist)
 
     def evaluate(seed, hashseed, root, stats):
@@ -339,7 +359,7 @@ NONTRIVIAL = ("distinct = distinct run signatures (hash of the sequence of event
               "return code and selection/stop/dry-run/capture flags); non-trivial = a signature of a run in which "
               "at least one callback raised, or some element ended skipped/untested/undefined")
 
-_e, _r = make_runsim("C01", [O.check_C01], prof_C01, c01_probe)
+_e, _r = make_runsim("C01", [O.check_C01], prof_C01, c01_probe, child_every=211)
 _reg("C01", _e, _r, "exploration",
      "worlds (feature trees x step outcomes x hooks x cleanups x tag/name/location selection x --stop/--dry-run/--wip) "
      "generated from the seed; verdict compared with the model's reading of the REALISED events; " + NONTRIVIAL,
@@ -378,12 +398,40 @@ _reg("C12", c12_evaluate, c12_reproduce, "fault_enumeration",
      {"quick": 30, "thorough": 600},
      coverage_extra={"enumeration": "complete over (hook invocation x {Exception, AssertionError}) for each sampled world with <= 40 invocations"})
 
-_e, _r = make_runsim("C13", [O.check_C13], prof_C13, c13_probe)
+from . import contextsim as CS     # noqa: E402
+_e13, _r13 = make_runsim("C13", [O.check_C13], prof_C13, c13_probe)
+
+
+def c13_evaluate(seed, hashseed, root, stats):
+    out, d1 = _e13(seed, hashseed, root, stats)
+    out2, d2 = CS.evaluate(seed, hashseed, root, stats)
+    stats.probe("context-machine-histories")
+    return list(out) + list(out2), hashlib.sha1((d1 + d2).encode("ascii")).hexdigest()
+
+
+def c13_reproduce(world, root, ctx):
+    if world.get("context_case"):
+        return CS.reproduce(world, root, ctx)
+    return _r13(world, root, ctx)
+
+
+def c13_minimise(world, violation, spec, root, ctx, budget=300):
+    if world.get("context_case"):
+        return CS.minimise(world, violation, spec, root, ctx, budget)
+    from . import minimise as MIN
+    return MIN.ddmin(world, violation, spec, root, ctx, budget)
+
+
+_e, _r = c13_evaluate, c13_reproduce
 _reg("C13", _e, _r, "exploration",
      "worlds whose hooks and steps at every level set / delete / probe context attributes and register cleanups "
      "(plain, with args, layer=, generator and plain fixtures, failing setup), some raising; every probe compared with a "
-     "dict-stack model, every cleanup with the LIFO exactly-once model; " + NONTRIVIAL,
-     {"quick": 2200, "thorough": 40000})
+     "dict-stack model, every cleanup with the LIFO exactly-once model; plus the context history machine: a real "
+     "Context driven through seeded histories of push / pop / set / get / delete / contains / set-root / use_or_assign / "
+     "use_or_create / add_cleanup (plain, args, layer=, same function twice) / use_fixture (generator, plain, failing "
+     "setup, composite, nested) in user and behave mode, with ALL subsets of raising cleanups for histories with <= 4 "
+     "cleanups (sampled beyond), every name read back after every operation; " + NONTRIVIAL,
+     {"quick": 1700, "thorough": 30000}, minimise=c13_minimise)
 
 
 # ---------------------------------------------------------------------------
@@ -392,16 +440,21 @@ _reg("C13", _e, _r, "exploration",
 from . import artifacts as A     # noqa: E402
 
 
-def make_runsim_post(prop, oracle_fns, profile, post, extra_probe=None):
+def make_runsim_post(prop, oracle_fns, profile, post, extra_probe=None, child_every=0):
     def eval_world(world, root, stats):
         hist = R.run_world(world, root, post=post)
         pred = M.Acceptor(world, hist).run()
+        child_vs = []
+        if child_every and (world["seed"] % child_every == 0 or world.get("child_check")):
+            child_vs = child_cross_check(prop, world, hist, root, stats)
+            if child_vs:
+                world = dict(world, child_check=True)
         if stats is not None:
             stats.note_run(world, hist)
             _record_sample(stats, world, hist)
             if extra_probe:
                 extra_probe(world, hist, pred, stats)
-        vs = []
+        vs = list(child_vs)
         for fn in oracle_fns:
             vs.extend(fn(world, hist, pred))
         esc = O.escaped_violation(hist)
@@ -539,7 +592,7 @@ _reg("C16", _e, _r, "exploration",
      "expat; test cases vs census, counters vs entries, failure/error entry naming the step or hook; " + NONTRIVIAL,
      {"quick": 2200, "thorough": 40000})
 
-_e, _r = make_runsim_post("C18", [A.check_C18], prof_C18, None, c18_probe)
+_e, _r = make_runsim_post("C18", [A.check_C18], prof_C18, None, c18_probe, child_every=211)
 _reg("C18", _e, _r, "exploration",
      "steps and step hooks print unique markers to stdout/stderr/logging under all 8 capture switch combinations, "
      "all outcome classes incl. interrupt and step-hook errors, nested execute_steps, several scenarios in sequence; "
